@@ -312,8 +312,7 @@ fn run_case(c: &Case, st: &mut Stats, want: bool, known: &crate::known::Known) -
     }
     // pixel level
     let mut dt = DrawTarget::new(c.w, c.h);
-    dt.set_transform(&c.t);
-    dt.stroke(&c.path, &Source::Solid(WHITE), &c.style, &opts(BlendMode::SrcOver, 1., true));
+    super::c04::stroke_possibly_scaled(&mut dt, &c.path, &c.style, &c.t, true, st);
     let t64 = T64::from(&c.t);
     let reg = stroke_region(&model.pieces, c.style.width as f64, cap_of(c.style.cap), join_of(c.style.join), c.style.miter_limit as f64, &t64);
     if reg.ill {
